@@ -19,6 +19,13 @@ CRLF = {",": ("", "\r\n"), ":": ("", " "), "=": (" ", " "), ";": ("", "\r\n")}
 
 def all_styles():
     styles = [("compact", COMPACT), ("spaced", SPACED), ("wide", WIDE), ("newlines", NEWLINES), ("tabs", TABS), ("crlf", CRLF)]
+    # empty statements between two separators are skipped (seeded: the statement loop stopped at the first one)
+    st = dict(COMPACT)
+    st[";"] = ("", ";")
+    styles.append(("double-semicolon", st))
+    st = dict(SPACED)
+    st[";"] = (" ; ", "\n")
+    styles.append(("empty-statement-spaced", st))
     for sep in (",", ":", "=", ";"):
         for b in ("", " ", "\n"):
             for a in ("", " ", "\n"):
